@@ -178,10 +178,14 @@ def schema_open(f, files, extra_decls=None):
     return s + ">"
 
 
-def render_schema_body(f, files, ind="  "):
+def render_schema_body(f, files, ind="  ", inline=False):
     x = f.xs_prefix
     out = []
     for j in f.imports:
+        if inline:
+            # the imported schema sits in the same <wsdl:types>: no schemaLocation
+            out.append(f'{ind}<{x}:import namespace={quoteattr(files[j].uri)}/>')
+            continue
         out.append(f'{ind}<{x}:import namespace={quoteattr(files[j].uri)} schemaLocation={quoteattr(files[j].filename)}/>')
     for c in f.components:
         out += render_component(f, c, files, ind)
@@ -219,9 +223,16 @@ def render_wsdl(ss):
     decl += f' name={quoteattr(w.service.xml)}>'
     out.append(decl)
     out.append('  <wsdl:types>')
-    out.append('    ' + schema_open(f0, files).replace(f' xmlns:{f0.xs_prefix}="{XSD_NS}"', ""))
-    out += render_schema_body(f0, files, "      ")
-    out.append(f'    </{f0.xs_prefix}:schema>')
+    inline_all = getattr(ss, "inline_all", False)
+    order = getattr(ss, "inline_order", None) or [0]
+    for k in (order if inline_all else [0]):
+        fk = files[k]
+        if k == 0:
+            out.append('    ' + schema_open(f0, files).replace(f' xmlns:{f0.xs_prefix}="{XSD_NS}"', ""))
+        else:
+            out.append('    ' + schema_open(fk, files))
+        out += render_schema_body(fk, files, "      ", inline=inline_all)
+        out.append(f'    </{fk.xs_prefix}:schema>')
     out.append('  </wsdl:types>')
     for op in w.operations:
         for m in (op.input, op.output):
@@ -272,6 +283,8 @@ def render_set(ss):
     for f in ss.files:
         if ss.wsdl is not None and f.idx == 0:
             files[f.filename] = render_wsdl(ss)
+        elif ss.wsdl is not None and getattr(ss, "inline_all", False):
+            continue            # rendered inside the WSDL's <types>
         else:
             files[f.filename] = render_xsd(f, ss.files)
     return files
